@@ -316,7 +316,12 @@ func stressSeq(r *rand.Rand) string {
 		go func(p int) {
 			defer wg.Done()
 			for i := 0; i < N; i++ {
-				eb.Publish(bus, SEv{p, i})
+				if (p+i)%2 == 0 {
+					var ev any = SEv{p, i} // through an interface variable: the dispatcher's reflection path
+					eb.Publish(bus, ev)
+				} else {
+					eb.Publish(bus, SEv{p, i})
+				}
 			}
 		}(p)
 	}
